@@ -72,6 +72,10 @@ PURE_BUILTINS = {
 }
 
 
+# what the explorers of this process covered (reported in the evidence files)
+STATS = {"runs": 0, "paths": 0, "functions": set()}
+
+
 class Outcome:
     __slots__ = ("kind", "ret", "store", "events", "decisions", "cons")
 
@@ -359,6 +363,8 @@ class Explorer:
         """args: list of values for the parameters (missing = TOP)."""
         if depth == 0:
             self.paths = 0          # the path budget is per top-level exploration
+            STATS["runs"] += 1
+        STATS["functions"].add(f.key)
         self.frame_counter += 1
         fid = self.frame_counter
         store = dict(store)
@@ -378,6 +384,8 @@ class Explorer:
             self._run_path(f, fid, st, work, outs, depth, seen)
             if self.paths > self.max_paths:
                 raise AnalysisBroken("%s: path explosion (> %d paths)" % (f.loc(), self.max_paths))
+        if depth == 0:
+            STATS["paths"] += len(outs)
         if self.merge:
             uniq = {}
             for o in outs:
